@@ -49,7 +49,25 @@ BROKER_ASSUME = ['Proto/Broker.v is a hand-written event-step model of the broke
                  'events are separated by barriers (the concurrent window is covered by the ring / lock models and the race detector); '
                  'Go runtime, net.Pipe and goroutine scheduling are not modelled']
 
+def client_nontrivial(case, impl):
+    # non-trivial: the script got past Connect and some callback fired
+    return ' 2 ' in impl or ' 3 ' in impl
+
+def _client(pid, extra=''):
+    return dict(name='clientdrv', oracle_filter=r'(^%s:|\(%s\)%s)' % (pid, pid, extra), nontrivial=client_nontrivial,
+                env=dict(quick=dict(VERIF_CLIENT_N='80'), thorough=dict(VERIF_CLIENT_N='1500')))
+
+CLIENT_RULE = ('scripts of Client API calls (Subscribe, Unsubscribe, Publish QoS 0-2, Ping) and server bytes (every CONNACK answer incl. '
+               'malformed ones, SUBACK/UNSUBACK/PUBACK/PUBREC/PUBCOMP in and out of order, application messages QoS 0-2 with duplicates and '
+               'PUBREL, acknowledgements for unknown ids, and the forced window in which an acknowledgement is processed before the sending '
+               'call registered its request) against a scripted TCP peer on 127.0.0.1, Ping round trips as barriers. '
+               'Non-trivial: Connect succeeded and a callback fired.')
+CLIENT_ASSUME = ['Client/Model.v is a hand-written model of the client role tied to the code by running the same scripts (clientdrv); TCP loopback, '
+                 'goroutine scheduling and timers are not modelled']
+
 PROPS = {
+    'C20': dict(coq='Properties/C20.v', drivers=[_client('C20', '|^STUCK')], rule=CLIENT_RULE, assumptions=CLIENT_ASSUME),
+    'C12': dict(coq='Properties/C12.v', drivers=[_client('C12'), _broker('C12', 120, 2500)], rule=CLIENT_RULE + ' Plus the broker histories (identifiers of forwarded PUBLISH packets, PUBREL answers).', assumptions=CLIENT_ASSUME + BROKER_ASSUME),
     'C01': dict(coq='Properties/C01.v', drivers=[_broker('C01', 120, 2500)], rule=BROKER_RULE, assumptions=BROKER_ASSUME),
     'C02': dict(coq='Properties/C02.v', drivers=[_broker('C02', 120, 2500)], rule=BROKER_RULE, assumptions=BROKER_ASSUME),
     'C05': dict(coq='Properties/C05.v', drivers=[_broker('C05', 120, 2500)], rule=BROKER_RULE, assumptions=BROKER_ASSUME),
